@@ -30,7 +30,7 @@ for pid, d in props.items():
     kind = "You are free to choose any place in the library that the property depends on (read the code paths behind every operator / function the statement names, and the helpers they share)."
     if len(sys.argv) > 3 and sys.argv[3] == 'adversarial':
         kind += " Assume the verification suite is thorough in the obvious ways: it compares every operator with an independent reference on hundreds of thousands of random inputs (all ranks, types, attribute combinations, special values), runs generated graphs and the sample models repeatedly on one loaded model and from many goroutines under the race detector, fingerprints caller tensors and weights before and after every call, re-uses operand tensors and operator instances across calls, and fuzzes the loaders. Look for what such a suite could still overlook: rare value- or shape-coincidences, interactions of two features that are each tested alone, boundaries of integer arithmetic, behaviour that depends on the ORDER of things (map iteration, attribute order, node order, input declaration order), error paths and partial failures, and state that only differs after an unusual sequence."
-        kind += " The suite also already: permutes attribute lists; passes axis/shape/index values at the int64 boundaries; applies one operator instance repeatedly (to other inputs, to the same tensor objects whose contents were overwritten in place, checking that earlier results stay intact); runs a refused call followed by a valid one on the same tensors; uses operands of >60000 elements now and then; mixes Runs with and without overriding an input's default; lets failing Runs execute concurrently and compares error texts; places unknown operator types anywhere in the graph; writes skipped inputs as \"\" behind nodes with omitted outputs. It also: compares the sign of zero results; uses int64 values beyond 2^53 and shape/target entries whose products overflow int64; names one axis twice in both spellings; passes zero-element tensors, tensors of >1000 elements, gorgonia element types that are not ONNX types; loads the same ModelProto object twice (NewModel, from bytes, from file, from zip incl. entries that cannot be opened) and checks that it is left unchanged; scribbles over what InputShapes()/InputNames() return; gives symbolic dimensions numeric names; uses 1-3 inputs with defaults per graph and any subset overridden per call; two-digit batch/hidden sizes; attribute values at integer boundaries; operands of two element types in the broadcast helpers; output names of unknown operators that collide with initializers, inputs or earlier outputs. And: varies the declared ir_version; puts stray entries (named like computed values) into the caller's input map; passes input lists with spare capacity; uses NaN/Inf/-0 operands and all-zero filters for Conv; passes one tensor object at several operand positions; overwrites the slices returned by GetInputTypeConstraints/InputShapes; uses ranks up to 11, results beyond 2^24 elements, axes of >1024 entries, batches of 17..513; user-named Go element types; rank-0 and zero-element tensors at every gate position; operator types containing % verbs; raw payloads shared by two initializers of different type. OUT OF SCOPE (do not use): operands that are non-contiguous views / lazily transposed tensors, calling Init twice on one operator instance, applying ONE operator instance from several goroutines, callers that write into tensors returned by Run, and the order in which a float implementation evaluates a product of three factors (intermediate overflow/underflow for operands of extreme magnitude). Prefer REALISTIC regressions (what a refactor, a performance optimisation, a dependency upgrade or a bug fix gone slightly wrong would introduce) over contrived size thresholds."
+        kind += " The suite also already: permutes attribute lists; passes axis/shape/index values at the int64 boundaries; applies one operator instance repeatedly (to other inputs, to the same tensor objects whose contents were overwritten in place, checking that earlier results stay intact); runs a refused call followed by a valid one on the same tensors; uses operands of >60000 elements now and then; mixes Runs with and without overriding an input's default; lets failing Runs execute concurrently and compares error texts; places unknown operator types anywhere in the graph; writes skipped inputs as \"\" behind nodes with omitted outputs. It also: compares the sign of zero results; uses int64 values beyond 2^53 and shape/target entries whose products overflow int64; names one axis twice in both spellings; passes zero-element tensors, tensors of >1000 elements, gorgonia element types that are not ONNX types; loads the same ModelProto object twice (NewModel, from bytes, from file, from zip incl. entries that cannot be opened) and checks that it is left unchanged; scribbles over what InputShapes()/InputNames() return; gives symbolic dimensions numeric names; uses 1-3 inputs with defaults per graph and any subset overridden per call; two-digit batch/hidden sizes; attribute values at integer boundaries; operands of two element types in the broadcast helpers; output names of unknown operators that collide with initializers, inputs or earlier outputs. And: varies the declared ir_version; puts stray entries (named like computed values) into the caller's input map; passes input lists with spare capacity; uses NaN/Inf/-0 operands and all-zero filters for Conv; passes one tensor object at several operand positions; overwrites the slices returned by GetInputTypeConstraints/InputShapes; uses ranks up to 11, results beyond 2^24 elements, axes of >1024 entries, batches of 17..513; user-named Go element types; rank-0 and zero-element tensors at every gate position; operator types containing % verbs; raw payloads shared by two initializers of different type. Since the last round it also: replays a deviating case behind the cases evaluated before it (so state the library keeps between calls - pools, caches, memos - is attributed correctly); overrides defaulted inputs with tensors of other extents than the default; spells the default opset domain as ai.onnx; refills the caller's input tensor objects in place between Runs; feeds NaN/Inf to every operator inside models; uses up to 40 Conv filters, spatial extents beyond 100 and other GOMAXPROCS values; parameterised recurrent activations with activation_alpha/beta; operands that are Clone()s; nodes sandwiched between other nodes (operand and result are intermediates); Concat with empty inputs; empty axes attributes; negative dim_values; zero extents in broadcasting; one broadcast source shared by concurrent callers; random back-to-back gate probes and gates re-asked after valid Runs; Gemm with the batch as the transposed operand; concurrent Runs of differing shapes; several perturbations of one initializer at once; unknown operators with dangling inputs. OUT OF SCOPE (do not use): operands of caller-defined types that merely embed *tensor.Dense, operands that are non-contiguous views / lazily transposed tensors, calling Init twice on one operator instance, applying ONE operator instance from several goroutines, callers that write into tensors returned by Run, and the order in which a float implementation evaluates a product of three factors (intermediate overflow/underflow for operands of extreme magnitude). Prefer REALISTIC regressions (what a refactor, a performance optimisation, a dependency upgrade or a bug fix gone slightly wrong would introduce) over contrived size thresholds."
     t = tmpl.replace('{WT}', wt).replace('{OUT}', out).replace('{PROPERTY}', prop).replace('{KIND}', kind)
     t = t.replace('Two earlier mutants', 'Earlier mutants').replace('{AVOID}', '; '.join(earlier))
     open(out + '/PROMPT.txt', 'w').write(t)
